@@ -617,6 +617,14 @@ class Interface:
                 return [(st, param)]
             raise OutOfReach('evaluate(%r)' % (param,))
         out = []
+        if param.pkind == 'optstream':
+            # None or another stream (constant or computed from the context: total either way)
+            a, b = eng.fork(st, st.ghost['redirected'])
+            if a is not None:
+                out.append((a, a.ghost['otherstream']))
+            if b is not None:
+                out.append((b, NONE))
+            return out
         isc, nc = eng.fork(st, param.callable_t)
         if isc is not None:
             out.extend(self.call_param(eng, param, [ctx], {}, isc, None))
